@@ -468,3 +468,26 @@ def bfs(machine, roots, depth, visit, max_states=None, event_filter=None):
         if not frontier:
             break
     return len(seen), ntrans, False, closed
+
+
+def split_frontier(machine, root, levels):
+    """Distinct states `levels` events below `root`, as event lists: roots for parallel searches
+    (states met on the way are returned too, with the depth that is left for them)."""
+    out = []
+    seen = set()
+    st = machine.replay(root)
+    seen.add(st["key"])
+    frontier = [(root, st["enabled"])]
+    out.append((root, 0))
+    for level in range(levels):
+        nxt = []
+        for events, enabled in frontier:
+            for ev in enabled:
+                new = [*events, ev]
+                st = machine.replay(new)
+                if st["key"] in seen:
+                    continue
+                seen.add(st["key"])
+                nxt.append((new, st["enabled"]))
+        frontier = nxt
+    return [events for events, _ in frontier]
